@@ -112,6 +112,14 @@ def OBJECT(cls, **attrs):
 HOSTFN = Dom(['hostfn'], label='HOSTFN')
 
 
+class _Omitted(object):
+    def __repr__(self):
+        return 'OMITTED'
+
+
+OMITTED = _Omitted()      # "this trailing argument is not passed": the callee's default applies
+
+
 class ContractDecl(object):
     def __init__(self, target, cls, props, kw):
         self.target = target
@@ -232,6 +240,32 @@ def exists(lo, hi, f):
     return any(f(k) for k in range(lo, hi))
 
 
+def flat(x):
+    out = []
+    for y in x:
+        if isinstance(y, (list, tuple)):
+            out.extend(flat(y))
+        else:
+            out.append(y)
+    return out
+
+
+def collapse_spaces(s):
+    import re
+    return re.sub(' {2,}', ' ', s)
+
+
+def replace_kth(text, old, new, k):
+    """ replace the k-th (1-based, scanning left to right, overlapping starts counted) occurrence of old in text """
+    n = 0
+    for i in range(len(text) - len(old) + 1):
+        if text[i:i + len(old)] == old:
+            n += 1
+            if n == k:
+                return text[:i] + new + text[i + len(old):]
+    return text
+
+
 def int_of_text(s):
     return int(s)
 
@@ -281,9 +315,9 @@ def ceil(x):
 
 
 NATIVE_NAMES = ['Outcome', 'Dom', 'NONE_T', 'BOOL', 'INT', 'FLOAT', 'STR', 'ERR', 'DATE', 'NUMBER', 'NUMBERB', 'SCALAR',
-                'HOSTOBJ', 'ANY', 'VALUE_T', 'SEQ', 'ARGS', 'CONST', 'TUPLE', 'LISTN', 'OBJECT', 'HOSTFN', 'contract',
+                'HOSTOBJ', 'ANY', 'VALUE_T', 'SEQ', 'ARGS', 'CONST', 'TUPLE', 'LISTN', 'OBJECT', 'HOSTFN', 'OMITTED', 'contract',
                 'lemma', 'is_none', 'is_bool', 'is_int', 'is_float', 'is_num', 'is_numb', 'is_str', 'is_err', 'is_date',
-                'is_list', 'is_obj', 'same', 'truthy', 'implies', 'raises', 'raise_err', 'forall', 'exists',
+                'is_list', 'is_obj', 'same', 'truthy', 'implies', 'raises', 'raise_err', 'forall', 'exists', 'flat', 'collapse_spaces', 'replace_kth',
                 'int_of_text', 'text_is_int', 'float_of_text', 'text_is_float', 'errmsg', 'is_canonical', 'real',
                 'floor', 'ceil']
 ERR_NAMES = ['ERROR', 'DIV_ZERO', 'NAME', 'NOT_AVAILABLE', 'NULL', 'NUM', 'REF', 'VALUE', 'DATA']
